@@ -420,7 +420,7 @@ func report(prop, tier string, baseSeed uint64, pc *propCfg, b *build, results [
 			if len(tail) > 3000 {
 				tail = tail[len(tail)-3000:]
 			}
-			if pc.CrashIsViolation && r.curSeed != "" && (strings.Contains(r.output, "fatal error:") || strings.Contains(r.output, "panic:")) {
+			if pc.CrashIsViolation && r.curSeed != "" && deathInRepoCode(r.output) {
 				seed, _ := strconv.ParseUint(r.curSeed, 10, 64)
 				sig := prop + "/process-death/" + fatalKind(r.output)
 				rf := map[string]interface{}{"property": prop, "scenario": "", "seed": seed, "signature": sig, "detail": tail, "workload": nil, "tier": tier, "note": "worker process died; replay regenerates the case from the seed"}
@@ -638,7 +638,7 @@ func replay(file string) int {
 			}
 		}
 		if !summary {
-			if pc != nil && pc.CrashIsViolation && (strings.Contains(r.output, "fatal error:") || strings.Contains(r.output, "panic:")) {
+			if pc != nil && pc.CrashIsViolation && deathInRepoCode(r.output) {
 				fmt.Printf("VIOLATION property=%s replay=%s\n  signature: %s/process-death/%s\n", rf.Property, file, rf.Property, fatalKind(r.output))
 				return 1
 			}
@@ -679,4 +679,49 @@ func main() {
 	default:
 		die(2, "unknown command %s", os.Args[1])
 	}
+}
+
+// deathInRepoCode decides whether a dead worker died in repository code: the
+// innermost non-runtime frame of the panicking (or fatally failing) goroutine
+// must be a bmeg/grip function. A panic whose innermost frame is harness code
+// is an infrastructure failure (exit 2), never a violation.
+func deathInRepoCode(out string) bool {
+	if !strings.Contains(out, "fatal error:") && !strings.Contains(out, "panic:") {
+		return false
+	}
+	lines := strings.Split(out, "\n")
+	start := 0
+	for i, l := range lines {
+		if strings.HasPrefix(l, "panic:") || strings.HasPrefix(l, "fatal error:") {
+			start = i
+			break
+		}
+	}
+	inStack := false
+	for _, l := range lines[start:] {
+		if strings.HasPrefix(l, "goroutine ") {
+			if inStack {
+				break // only the first (failing) goroutine
+			}
+			inStack = true
+			continue
+		}
+		if !inStack || strings.HasPrefix(l, "\t") || l == "" {
+			continue
+		}
+		fn := l
+		switch {
+		case strings.HasPrefix(fn, "runtime."), strings.HasPrefix(fn, "testing."), strings.HasPrefix(fn, "panic("), strings.HasPrefix(fn, "sync."), strings.HasPrefix(fn, "internal/"), strings.HasPrefix(fn, "created by"):
+			continue
+		case strings.HasPrefix(fn, "verifsim/simrt."), strings.HasPrefix(fn, "verifsim/simkv."):
+			continue // the simulator's wrappers around repository code
+		case strings.HasPrefix(fn, "github.com/bmeg/grip/"):
+			return true
+		case strings.HasPrefix(fn, "verifsim/"):
+			return false
+		default:
+			continue // third-party frame: keep looking for the caller
+		}
+	}
+	return false
 }
